@@ -44,6 +44,11 @@ def family(tier, seed):
             m = X.seq_model(h, SEQ, sd, cap=6, with_key=False)
             if m is not None:
                 docs.append((f'{"+".join(h)}#{sd}', m))
+        # the same with the first / second spine terminated early while the others go on
+        for xi, sd in ((0, seed), (1, seed + 1)):
+            m = X.seq_model(h, ['k', 'i', 'b', 'd', 'd', f'X{xi}', 'd', 'S0', 'd', 'J0', 'b', 'd', 'b'], sd, cap=6, with_key=False)
+            if m is not None:
+                docs.append((f'{"+".join(h)}/early-termination-{xi}#{sd}', m))
     return docs
 
 
